@@ -11,6 +11,7 @@ _cache = {}
 def facts():
     if "f" not in _cache:
         _cache["f"] = Facts(run_driver("native", repo=POS, crate="poscontrol"))
+        _cache["f"].no_inline = True      # the baseline function table describes simple-sds, not the control crate
     return _cache["f"]
 
 
@@ -70,3 +71,8 @@ def run(ctx, prop):
         hits = c17.narrow_complement_masks(F)
         ctx.ob("C17.positive-control.narrow-mask", "controls/pos", "controls/pos/src/lib.rs", any("narrow_mask" in h[0] for h in hits), "positive-control",
                "the mask-width rule fires on `n & !(u64::BITS - 1) as usize` in the control crate: %s" % hits, nontrivial=False)
+    elif prop == "C10":
+        import c10
+        hits = c10.consumed_then_handed_on(F)
+        ctx.ob("C10.positive-control.iterator-past-rejected-item", "controls/pos", "controls/pos/src/lib.rs", any("scan_and_hand_on" in h[0] for h in hits), "positive-control",
+               "the rule fires on the scan loop of the control crate that returns its iterator after a rejecting break: %s" % hits, nontrivial=False)
